@@ -12,6 +12,8 @@ import NxsModel.Driver.Fanout
 import NxsModel.Driver.Lifecycle
 import NxsModel.Driver.Worker
 import NxsModel.Driver.Family
+import NxsModel.Driver.Pipe
+import NxsModel.Driver.Locks
 open Nxs Nxs.Driver
 
 def dispatch (toks : List String) : String :=
@@ -30,6 +32,8 @@ def dispatch (toks : List String) : String :=
   | "life" :: rest => (lifeOp rest).getD "bad-op"
   | "worker" :: rest => (workerOp rest).getD "bad-op"
   | "fam" :: rest => (famOp rest).getD "bad-op"
+  | "pipe" :: rest => (pipeOp rest).getD "bad-op"
+  | "locks" :: rest => (locksOp rest).getD "bad-op"
   | _ => "bad-op"
 
 partial def loop (h : IO.FS.Stream) (out : IO.FS.Stream) : IO Unit := do
